@@ -276,8 +276,11 @@ func (j *judge) judgeTx(tx *TxRec, claims map[string][]string) {
 			}
 			_, had := pre["tasks"][id]
 			tk, has := post["tasks"][id]
-			if had {
+			if had && !strings.Contains(pre["tasks"][id].S("mesg"), `"`+pid+`"`) {
+				// F17: the task that is in the way was made for ANOTHER awaiting/awaited pair whose derived id coincides
 				j.add("C05", "J2", "C05:derived-id-collision", "registration %s of %s collides with an existing task of the same id", id, pid)
+			} else if had {
+				j.add("C05", "J2", "", "registration %s of %s meets a task of the same pair that exists already: a second task for one awaiting/awaited pair (tx#%d %s)", id, pid, tx.Seq, tx.ReqId)
 			} else if !has {
 				j.add("C05", "J2", "", "registration %s of %s was dropped: no task created when the promise completed (tx#%d %s [%s])", id, pid, tx.Seq, tx.ReqId, tx.CmdString())
 			} else if tk.I("state") != tInit || tk.S("recv") != cb.S("recv") || tk.S("mesg") != cb.S("mesg") || tk.S("root_promise_id") != cb.S("root_promise_id") || tk.I("timeout") != cb.I("timeout") {
